@@ -55,6 +55,15 @@ DIRECTED = [
      "split": {"imported": ["messages", "port_types", "bindings"], "types": "imported"}},
     {"layout": "one", "n_ops": 1, "binding_style": "document", "op_style": None, "header": 1, "header_same_message": 1,
      "extra_headers": 1, "doc_two_parts": 1, "header_after_body": 1},
+    # QNames of parts resolve in the part's own scope: a prefix the root binds elsewhere is rebound on the part ...
+    {"layout": "one", "n_ops": 2, "binding_style": "document", "op_style": None, "header": 1, "header_same_message": 0,
+     "n_faults": 2, "shadow_parts": 1},
+    {"layout": "one", "n_ops": 2, "binding_style": "rpc", "op_style": None, "header": 1, "n_faults": 1, "shadow_parts": 1},
+    # ... and an imported WSDL binds the importing document's prefixes the other way round
+    {"layout": "one", "n_ops": 2, "binding_style": "document", "op_style": None, "header": 1, "n_faults": 1, "shadow_parts": 0,
+     "schema_mode": "inline", "split": {"imported": ["messages"], "types": "imported", "px_b": 1}},
+    {"layout": "two_bindings", "n_ops": 3, "header": 1, "n_faults": 1, "shadow_parts": 0,
+     "split": {"imported": ["messages", "port_types"], "types": "both", "px_b": 1}},
 ]
 
 
@@ -75,6 +84,26 @@ SHADOW_WSDL = """<definitions xmlns:soap="http://schemas.xmlsoap.org/wsdl/soap/"
   <operation name="Rpc"><soap:operation soapAction="urn:rpc"/>
     <input><soap:header message="tns:Hdr" part="h" use="literal"/><soap:body use="literal" namespace="urn:rpcns"/></input>
     <output><soap:body use="literal" namespace="urn:rpcns"/></output></operation>
+ </binding>
+ <service name="S"><port name="P" binding="tns:B"><soap:address location="http://h/x"/></port></service>
+</definitions>
+"""
+
+
+# a fixed document: a part rebinds the prefix `xs` where the XML Schema namespace is bound to no other prefix (C17-F12)
+COMMON_PREFIX_WSDL = """<definitions xmlns:soap="http://schemas.xmlsoap.org/wsdl/soap/" xmlns:tns="urn:svc"
+ xmlns:xs="http://www.w3.org/2001/XMLSchema" xmlns="http://schemas.xmlsoap.org/wsdl/" targetNamespace="urn:svc" name="S">
+ <types><xs:schema targetNamespace="urn:svc" elementFormDefault="qualified">
+   <xs:element name="Req"><xs:complexType><xs:sequence><xs:element name="a" type="xs:string"/></xs:sequence></xs:complexType></xs:element>
+   <xs:element name="Res"><xs:complexType><xs:sequence><xs:element name="b" type="xs:int"/></xs:sequence></xs:complexType></xs:element>
+ </xs:schema></types>
+ <message name="In"><part name="parameters" element="xs:Req" xmlns:xs="urn:svc"/></message>
+ <message name="Out"><part name="parameters" element="tns:Res"/></message>
+ <portType name="PT"><operation name="Op"><input message="tns:In"/><output message="tns:Out"/></operation></portType>
+ <binding name="B" type="tns:PT">
+  <soap:binding transport="http://schemas.xmlsoap.org/soap/http" style="document"/>
+  <operation name="Op"><soap:operation soapAction="urn:op"/>
+    <input><soap:body use="literal"/></input><output><soap:body use="literal"/></output></operation>
  </binding>
  <service name="S"><port name="P" binding="tns:B"><soap:address location="http://h/x"/></port></service>
 </definitions>
@@ -157,6 +186,7 @@ def run(ck: Check):
                 pass
         n_rand = ck.n(34, 900)
         cases.append({"files": {"svc.wsdl": SHADOW_WSDL}, "origin": "fixed:shadow", "features": ["message-shadows-element"]})
+        cases.append({"files": {"svc.wsdl": COMMON_PREFIX_WSDL}, "origin": "fixed:common-prefix", "features": ["part-rebinds-xs"]})
         for i, force in enumerate(DIRECTED):
             W = G.gen_wsdl(r, i, force)
             cases.append({"files": G.render(W), "origin": "directed", "features": W["features"], "W": W})
@@ -199,6 +229,28 @@ def run(ck: Check):
             ck.failure("harness-generator-invalid-wsdl", f"lxml reader failed on a generated WSDL: {e!r}", replay_of(i))
             continue
         c["D"] = D_doc
+        # the parser first: its dump exists whatever happened later in the pipeline
+        same, a, b = True, None, None
+        if "definitions" in o:
+            try:
+                same, a, b = G.same_defs(G.from_xsdata(o["definitions"]), D_doc)
+            except ValueError as e:
+                same, a, b = False, repr(e), None
+            if not same:
+                # finding C17-F12, narrowly: the parser's object is exactly the document read with the modelled defect
+                # (G._scope: a common prefix rebound by the document is overwritten where its namespace is out of scope)
+                try:
+                    same_d = G.same_defs(G.from_xsdata(o["definitions"]), G.read_lxml_files(c["files"], "svc.wsdl", defect=True))[0]
+                except Exception:  # noqa
+                    same_d = False
+                if same_d:
+                    stats["features"]["F12-common-prefix-overwritten"] = stats["features"].get("F12-common-prefix-overwritten", 0) + 1
+                    ck.failure("common-prefix-rebound-overwritten",
+                               "the object DefinitionsParser built binds a common prefix (xs/xsi/xml/xlink) to its well-known "
+                               "namespace on an element where the document binds it to another namespace"
+                               + (f"; then generation failed at {o.get('stage')}: {(o.get('error') or {}).get('type')}"
+                                  if o.get("status") != "ok" else ""), replay_of(i, xsdata=a, document=b))
+                    continue        # everything downstream works on the misread document
         if o.get("status") != "ok":
             ck.failure("generation-fails", f"generation failed at {o.get('stage')}: {(o.get('error') or {}).get('type')}: "
                        f"{(o.get('error') or {}).get('message')}", replay_of(i, error=o.get("error")))
@@ -206,10 +258,6 @@ def run(ck: Check):
         if "definitions" not in o:
             ck.failure("generation-fails", f"DefinitionsParser failed: {o.get('definitions_error')}", replay_of(i))
             continue
-        try:
-            same, a, b = G.same_defs(G.from_xsdata(o["definitions"]), D_doc)
-        except ValueError as e:
-            same, a, b = False, repr(e), None
         if not same:
             ck.failure("corr-parser", "the object built by DefinitionsParser differs from the document (lxml reading)",
                        replay_of(i, xsdata=a, document=b))
